@@ -17,18 +17,22 @@ sys.path.insert(0, os.path.dirname(os.path.abspath(__file__)))
 from vlib import ToolError  # noqa: E402
 
 
-def generate(module, cfg, dest, tag, workers=4, timeout=3000):
-    """run TLC on a generator; write one behaviour (JSON array) per line to dest"""
+def generate(module, cfg, dest, tag, workers=4, timeout=3000, simulate=None, seed=0):
+    """run TLC on a generator; write one behaviour (JSON array) per line to dest.
+    simulate = (walks per worker, depth): random walks (tlc -simulate) instead of exhaustive unfolding"""
     md = os.path.join(OUT, "tlc", tag)
     subprocess.run(["rm", "-rf", md])
     env = dict(os.environ)
     env["JAVA_TOOL_OPTIONS"] = "-Xss64m -Xmx8g"
-    cmd = ["tlc", "-workers", str(workers), "-metadir", md, "-cleanup", "-noGenerateSpecTE", "-config", cfg, module]
+    cmd = ["tlc", "-workers", str(workers), "-metadir", md, "-cleanup", "-noGenerateSpecTE", "-config", cfg]
+    if simulate:
+        cmd += ["-seed", str(seed), "-simulate", "num=%d" % simulate[0], "-depth", str(simulate[1])]
+    cmd.append(module)
     p = subprocess.Popen(cmd, cwd=SPEC, env=env, stdout=subprocess.PIPE, stderr=subprocess.STDOUT)
     n = 0
     tail = []
     states = transitions = 0
-    ok = False
+    ok = bad = False
     with open(dest, "w") as f:
         for raw in p.stdout:
             line = raw.decode("utf-8", "replace")
@@ -37,33 +41,46 @@ def generate(module, cfg, dest, tag, workers=4, timeout=3000):
                 f.write(json.loads(line[i:line.rindex('"') + 1]) + "\n")
                 n += 1
                 continue
-            if "No error has been found" in line:
+            if "No error has been found" in line or (simulate and line.startswith("Finished in")):
                 ok = True
+            if line.startswith("Error:"):
+                bad = True
             m = re.search(r"(\d+) states generated, (\d+) distinct states found", line)
             if m:
                 transitions, states = int(m.group(1)), int(m.group(2))
+            m = re.search(r"The number of states generated: (\d+)", line)
+            if m:      # simulation mode: states visited along the walks (candidates included)
+                transitions = states = int(m.group(1))
             if not re.match(r"^(Parsing|Semantic|Linting|Progress|$)", line):
                 tail.append(line.rstrip())
                 tail = tail[-40:]
     p.wait()
     subprocess.run(["rm", "-rf", md])
-    if not ok:
+    if not ok or bad:
         raise ToolError("generator %s/%s failed:\n%s" % (module, cfg, "\n".join(tail)))
     return n, states, transitions
 
 
 def run_gen(pid, tier, gen, seed):
-    """gen = (module, cfg).  -> result dict for bin/check"""
-    module, cfg = gen
+    """gen = (module, cfg) or (module, cfg, opts).  -> result dict for bin/check.
+    opts: simulate = (walks per worker, depth); owned = True: the generator walks the WHOLE machine, and
+    a divergence at step i is reported only if this property owns the operation of step i (plan.OWNER) --
+    a divergence at another property's operation is that property's to report, and is counted as foreign"""
+    module, cfg = gen[0], gen[1]
+    opts = gen[2] if len(gen) > 2 else {}
     t0 = time.time()
     d = os.path.join(OUT, pid, tier)
     os.makedirs(d, exist_ok=True)
     beh = os.path.join(d, cfg.replace(".cfg", "") + ".behaviours.ndjson")
-    n, states, transitions = generate(module + ".tla", cfg, beh, "%s-%s-%s" % (pid, tier, cfg))
+    n, states, transitions = generate(module + ".tla", cfg, beh, "%s-%s-%s" % (pid, tier, cfg),
+                                      simulate=opts.get("simulate"), seed=seed)
     if n == 0:
         raise ToolError("generator %s produced no behaviour" % cfg)
     res = dict(kind="s2i", name=cfg.replace(".cfg", ""), behaviours=n, states=states, transitions=transitions,
-               evaluations=0, distinct=0, accepted_units=0, violations=[], samples=[])
+               evaluations=0, distinct=0, accepted_units=0, violations=[], samples=[], foreign_divergences=0)
+    if opts.get("simulate"):
+        res["mode"] = "tlc -simulate num=%d (x4 workers) depth=%d seed=%d" % (opts["simulate"][0], opts["simulate"][1], seed)
+    from plan import OWNER
     for profile, dirn in (("dev", "debug"), ("release", "release")):
         vio = os.path.join(d, "%s.%s.mismatch.ndjson" % (cfg.replace(".cfg", ""), profile))
         p = subprocess.run([os.path.join(HARNESS, "target", dirn, "bsx"), "replay", beh, vio],
@@ -76,11 +93,19 @@ def run_gen(pid, tier, gen, seed):
         res["accepted_units"] += s["behaviours"] - s["mismatches"]
         res["samples"] = s["samples"][:1]
         if s["mismatches"]:
-            for k, line in enumerate(open(vio).read().splitlines()[:3]):
+            mine = []
+            for line in open(vio).read().splitlines():
                 v = json.loads(line)
+                if opts.get("owned") and OWNER.get(v["behaviour"][v["index"]].get("op")) != pid:
+                    continue
+                mine.append(v)
+            if opts.get("owned"):
+                own_n = sum(c for o, c in s.get("mismatch_ops", {}).items() if OWNER.get(o) == pid)
+                res["foreign_divergences"] += s["mismatches"] - own_n
+            for k, v in enumerate(mine[:3]):
                 path = os.path.join(d, "violation-s2i-%s-%s-%d.ndjson" % (cfg.replace(".cfg", ""), profile, k + 1))
                 hdr = {"replay": {"kind": "s2i", "property": pid, "generator": cfg, "profile": profile,
-                                  "index": v["index"], "observed": v["observed"]}}
+                                  "owned": bool(opts.get("owned")), "index": v["index"], "observed": v["observed"]}}
                 open(path, "w").write(json.dumps(hdr) + "\n" + json.dumps(v["behaviour"]) + "\n")
                 exp = v["behaviour"][v["index"]]
                 res["violations"].append(dict(
@@ -104,5 +129,13 @@ def replay(pid, path, hdr):
     if s["mismatches"] == 0:
         print("replay: the behaviour is now reproduced exactly by the library")
         return 0
+    if hdr.get("owned"):
+        from plan import OWNER
+        v = json.loads(open(vio).read().splitlines()[0])
+        op = v["behaviour"][v["index"]].get("op")
+        if OWNER.get(op) != pid:
+            print("replay: the behaviour now diverges at step %d (%s), an operation owned by %s, not %s"
+                  % (v["index"], op, OWNER.get(op), pid))
+            return 0
     print("VIOLATION property=%s replay=%s" % (pid, path))
     return 1
